@@ -31,6 +31,9 @@ pub enum UOp {
     MapUpd(u8, u8), // key, value index
     MapRem(u8),
     MapClr,
+    /// an operation whose key is not UTF-8 (0 = update, 1 = remove): `push` refuses it and the write
+    /// task drops it - nothing may be sent for it, now or when the writer comes back
+    MapBad(u8),
     Synced(u8),
     WriteDone,
 }
@@ -141,6 +144,8 @@ impl USim {
                 v.push(UOp::MapRem(k));
             }
             v.push(UOp::MapClr);
+            v.push(UOp::MapBad(0));
+            v.push(UOp::MapBad(1));
         }
         v.push(UOp::NotFound);
         if self.outstanding.is_some() {
@@ -342,6 +347,12 @@ impl USim {
                 let n = r.session;
                 r.map_truth.entry(n).or_default().clear();
                 self.uplinks.push(2, UplinkResponse::Map(MapOperation::Clear), &self.registry).map_err(|e| format!("law=push_accepts_valid: {}", e))?
+            }
+            UOp::MapBad(which) => {
+                let key = BytesMut::from(&[0xffu8, 0xfe][..]);
+                let op = if *which == 0 { MapOperation::Update { key, value: BytesMut::from(MVALS[0].as_bytes()) } } else { MapOperation::Remove { key } };
+                // refused (what the real lane decoder cannot prevent: it passes key bytes through)
+                self.uplinks.push(2, UplinkResponse::Map(op), &self.registry).unwrap_or_default()
             }
             UOp::Synced(l) => {
                 let r = &mut self.lanes[*l as usize];
